@@ -36,6 +36,7 @@ type Generator struct {
 	caser      *text.Caser
 	config     Config
 	inScope    map[qualifiedDefinition]struct{}
+	allOfScope map[*schemas.Type]struct{}
 	outputs    map[string]*output
 	warner     func(string)
 	formatters []formatter
@@ -61,6 +62,7 @@ func New(config Config) (*Generator, error) {
 		caser:      text.NewCaser(config.Capitalizations, config.ResolveExtensions),
 		config:     config,
 		inScope:    map[qualifiedDefinition]struct{}{},
+		allOfScope: map[*schemas.Type]struct{}{},
 		outputs:    map[string]*output{},
 		warner:     config.Warner,
 		formatters: formatters,
